@@ -74,6 +74,10 @@ def run(tier):
         if len(ck.samples) < 3 and len(v["out"]) > 3 and "finally" in src:
             ck.sample({"program": p["name"], "source": src[:800], "expected_output": v["out"][:10], "expected_outcome": v["res"]})
 
+    # try statements whose try and catch blocks add up to around and beyond 64 KiB of code (each below its own limit)
+    from ..gen import limits as _limits
+    for _n, _s in _limits.handler_sum_family():
+        plist.append({"name": _n, "steps": [("snip", _s)], "mods": [], "budget": 6000000})
     from ..gen import feat_fiber as _ffp
     rpr = ck.rng.fork("pendingreturn")
     for i in range(150 if quick else 6000 * common.TS):
